@@ -27,10 +27,30 @@ def main() -> None:
         if per_class:
             out[rel] = per_class
             members += sum(len(v) for v in per_class.values())
+    # public methods whose name is defined once in the whole package (renaming one back cannot clash)
+    definitions = {}
+    trees = {}
+    for rel in source.python_files():
+        trees[rel] = ast.parse(source.read(rel, raw=True))
+        for node in ast.walk(trees[rel]):
+            if isinstance(node, (ast.FunctionDef, ast.AsyncFunctionDef)):
+                definitions[node.name] = definitions.get(node.name, 0) + 1
+    public = {}
+    public_count = 0
+    for rel, tree in trees.items():
+        per_class = {}
+        for qual, entry in canon.public_members(tree).items():
+            unique = {name: value for name, value in entry.items() if definitions.get(name) == 1}
+            if unique:
+                per_class[qual] = unique
+                public_count += len(unique)
+        if per_class:
+            public[rel] = per_class
+    out[canon.PUBLIC_KEY] = public
     with open(canon.BASELINE_PATH, "w", encoding="utf-8") as handle:
         json.dump(out, handle, sort_keys=True, separators=(",", ":"))
         handle.write("\n")
-    print(f"{len(out)} files, {members} private members recorded -> {canon.BASELINE_PATH}")
+    print(f"{len(out) - 1} files, {members} private members and {public_count} uniquely named public methods recorded -> {canon.BASELINE_PATH}")
 
 
 if __name__ == "__main__":
